@@ -72,6 +72,9 @@ func runOne10ColMode(i int, cfg *Config, seed int64, reload bool) (obs Obs10) {
 	fmt.Fprintf(h, "c10col/%d/%d", seed, i)
 	rng := rand.New(rand.NewSource(int64(h.Sum64())))
 	w := newWorld()
+	if i%3 == 1 {
+		w.stem = longStem
+	}
 	for _, f := range cfg.Fail {
 		w.fail[f] = true
 	}
